@@ -67,6 +67,14 @@ REV = {
  "rev-C03b-fix": ("C03", "C03-load-cross-partition-linkage"),
  "rev-C05-fix":  ("C05", "C05-dependency-all-started"),
 }
+# the coordinator's independent seeded changes (patch files)
+SEED = {
+ "seedpatch-C01-b-on-C01": ("C01", "/verif/seeded/C01-b/patch.diff"),
+ "seedpatch-C01-b-on-C02": ("C02", "/verif/seeded/C01-b/patch.diff"),
+ "seedpatch-C03-b": ("C03", "/verif/seeded/C03-b/patch.diff"),
+ "seedpatch-C04-b": ("C04", "/verif/seeded/C04-b/patch.diff"),
+ "seedpatch-C05-b": ("C05", "/verif/seeded/C05-b/patch.diff"),
+}
 ENV = dict(os.environ, GOFLAGS="-mod=mod", GOPROXY="off", GOSUMDB="off", GOTOOLCHAIN="local")
 BASE = "go test -vet=off -count=1 ./bint/... ./eth/... ./jrpc2/... ./shovel/config/... ./shovel/glf/... ./wctx/... ./wos/... ./wslog/..."
 
@@ -80,7 +88,13 @@ def run(name):
     shutil.rmtree(DST, ignore_errors=True)
     shutil.copytree(SRC, DST, ignore=shutil.ignore_patterns(".git"))
     try:
-        if name in REV:
+        if name in SEED:
+            prop, pf = SEED[name]
+            rc, out = sh(f"patch -p1 < {pf}", cwd=DST)
+            if rc != 0:
+                print(f"{name}: patch failed {out[:300]}")
+                return
+        elif name in REV:
             prop, fix = REV[name]
             rc, out = sh(f"patch -R -p1 < /verif/fixes/{fix}.diff", cwd=DST)
             if rc != 0:
@@ -96,7 +110,7 @@ def run(name):
                     return
                 src = src.replace(o, n)
             open(os.path.join(DST, path), "w").write(src)
-        rc, out = sh("go build ./shovel/ ./dig/ ./jrpc2/", cwd=DST)
+        rc, out = sh("go build ./shovel/... ./dig/ ./jrpc2/ ./eth/", cwd=DST)
         if rc != 0:
             print(f"{name}: DOES NOT COMPILE\n{out[:800]}")
             return
@@ -122,6 +136,6 @@ def run(name):
 
 if __name__ == "__main__":
     want = sys.argv[1:] or [""]
-    for k in list(REV) + list(M):
+    for k in list(REV) + list(M) + list(SEED):
         if any(k.startswith(w) for w in want):
             run(k)
